@@ -167,16 +167,23 @@ def run_mutant(tmp, relpath, suffix, old, new):
     pyvc.REPO = tmp
     pyvc._SRC_CACHE.clear()
     try:
-        rep = pyvc.verify(cons[0])
+        rep = pyvc.verify(cons[0], discharge_now=False)
     finally:
         pyvc.REPO = "/repo"
         pyvc._SRC_CACHE.clear()
         open(dst, "w").write(src)
-    newf = sorted(ids(rep) - base)
-    if newf:
-        return "failed", ", ".join(x.split("::")[-1] for x in newf[:3])
     if rep.status != "ok":
         return rep.status, rep.detail[:120]
-    if rep.unknown:
-        return "unknown", f"{len(rep.unknown)} undecided"
+    # discharge one by one and stop at the first obligation that fails although it does not fail on the unchanged tree
+    unknown = 0
+    for ob in rep.obligations:
+        oid = re.sub(r"@\d+", "@L", ob.oid)
+        if oid in base:
+            continue
+        pyvc.discharge(ob, timeout_ms=5000, portfolio=False)
+        if ob.status == "failed":
+            return "failed", oid.split("::")[-1]
+        unknown += ob.status == "unknown"
+    if unknown:
+        return "unknown", f"{unknown} undecided"
     return "discharged", ""
